@@ -9,15 +9,23 @@ CFG = {
              "element list of Contour::to_kurbo with coordinates as f64 bit patterns, decoded exactly (quarter units). transforms: 100k/1M "
              "lines of 6 coefficients + point (small integers, quarter units, arbitrary finite doubles, font-unit decimals, boundary values) "
              "observing ContourPoint::transform, kurbo::Affine::from(t) * Point, the coefficients of both conversions and both round trips. "
+             "Two builds: the generator runs in the harness built with norad's kurbo feature and drives the harness built with the crate's DEFAULT "
+             "features as a worker, so ContourPoint::transform (every transform line, token p:) and Contour::is_closed (every type sequence "
+             "up to length 4, lines C20 C) are observed in both builds, compared with the formula / the model and with each other. "
              "non-trivial = contour of >= 2 points, or any transform line; distinct by input tokens"),
     "exhaustive": {"quick": True, "thorough": True},
     "exhaustive_note": "point-type sequences up to length 7 (quick) / 8 (thorough) are enumerated completely (one coordinate assignment each); the random contours and the transform values are not exhaustive",
-    "features": [],
+    # the generator needs norad's kurbo feature; the default-feature harness (extra build "plain", exported as
+    # HARNESS_PLAIN) is driven as a worker so that everything of C20 that exists without the feature is observed in
+    # the build a user gets by default as well
+    "features": ["kurbo"],
+    "extra_builds": {"plain": []},
     "trusted_base": COMMON_TRUST + [
         "modelled, not verified: kurbo 0.11.3 (BezPath element storage, Point::midpoint = 0.5*(a+b) per coordinate, Affine * Point); the kurbo formulas are separate definitions of the model (KAffine.apply) and are compared with the real crate on every transform line",
         "path coordinates are compared exactly on integer inputs (midpoints of even integers are exact in f64 and in the model's Int arithmetic); floating-point rounding of midpoints of arbitrary doubles is kurbo's and is not modelled",
         "the transform model is instantiated at Lean's Float (IEEE binary64, no fused multiply-add) for the bit-for-bit comparison and at Int for the exact formula check; the theorems hold for any type with + and *",
         "tools/extract_kurbo_conv.py (regex translator of Contour::is_closed / to_kurbo — start-point selection, walks, off-curve-only block, the five match arms, the slice-pattern arms of the Curve arm, the QCurve loop, close_path calls —, of ContourPoint::transform with its expression structure, of both From impls and of kurbo's vendored Affine * Point; trusted in one direction only: a wrong extraction can make a source_* theorem fail or fall back to the pinned copy, it cannot make a false theorem check)",
+        "the harness is built twice (features kurbo / default) from the same sources; what exists only with the kurbo feature (to_kurbo, the From impls) cannot be observed in the default build",
         "legality is C11's predicate (C11.Legal / legalB); that the glif parser accepts exactly the legal sequences is C11's theorem and correspondence",
     ],
     "assumptions": [
@@ -37,7 +45,9 @@ MANIFEST = {
              "translates to_kurbo (arms, thresholds, error, rotation, off-curve-only block, close_path), transform, both From impls and kurbo's "
              "vendored Affine * Point to Lean on every run; source_toKurbo_eq_model / source_toKurbo_eq_spec / source_never_closes / "
              "source_transform_eq_model / source_conversions_eq_model / source_kurbo_apply_eq_model / source_transform_property prove that the "
-             "regenerated definitions are the model's, so every C20 theorem is re-checked against the source as it is now."),
+             "regenerated definitions are the model's, so every C20 theorem is re-checked against the source as it is now; transform is extracted in both "
+             "cfg(feature = kurbo) variants (source_transform_plain_eq_model, source_transform_builds_agree) and executed in both builds of the harness "
+             "(rules formula:plain, transform-differs-between-builds, closed-test:*, is-closed-differs-between-builds)."),
     "design_ref": "5 / C20, Appendix D",
     "note": "trusted: Lean kernel, the three standard axioms, harness and driver glue, kurbo's path type and midpoint; requires the fix/c20 commits (three reproduced defects repaired)",
     "technique": "Lean 4 theorems (loop = segment specification by induction, rotation lemma, legality => well-formed segments via C11's trailOffs) + exhaustive-to-length-7 correspondence with exact coordinates + bit-for-bit transform comparison + source translator (to_kurbo / transform / From impls / kurbo Mul<Point> -> Generated/KurboConv.lean) with audited source_*_eq_model theorems",
